@@ -137,6 +137,7 @@ class World:
             self.obs_down = {}       # server -> tick at which its presence was lost
             self.obs_frozen = set()  # servers an administrator froze (and nothing undid since)
             self.plain_down = set()  # servers the master saw lose their presence, untouched since
+            self.untracked = set()   # servers deleted / created while watch delivery was deferred
             self.queues = []
             self.placement = None
             world = self
@@ -227,6 +228,10 @@ class World:
             if name in self.scn['server_init'] and len(self.spells[name]) > 1:
                 self.spells[name] = self.spells[name][-1:]
         self.plain_down = {s for s in self.scn['server_init'] if s not in self.nodes}
+        for s in self.untracked:
+            if not self.admin.exists(z.path.server(s)):
+                self.spells.pop(s, None)
+        self.untracked = set()
 
     # -- producers --------------------------------------------------------
     def _create_server(self, s, idx):
@@ -293,10 +298,20 @@ class World:
     def ev_SetPrio(self, a, prio):
         masterapi.update_app_priorities(self.admin, {self.names[a]: prio})
 
+    def _lagging(self):
+        return self.master is not None and getattr(self, 'deferred', False)
+
     def ev_CreateServer(self, s, idx):
         self.obs_frozen.discard(s)
         self._create_server(s, idx)
-        self.spells[s] = [[[0, 'M'], [0, '%'], [0, 'M']]]
+        zero = [[0, 'M'], [0, '%'], [0, 'M']]
+        if self._lagging():
+            # the master still holds what it read before: not judged until the
+            # `servers` event has been delivered
+            self.untracked.add(s)
+            self.spells[s] = self.spells.get(s, []) + [zero]
+        else:
+            self.spells[s] = [zero]
 
     def ev_NodeUp(self, s, idx):
         self._node_up(s, idx)
@@ -327,7 +342,10 @@ class World:
 
     def ev_DeleteServer(self, s):
         masterapi.delete_server(self.admin, s)
-        self.spells.pop(s, None)
+        if self._lagging():
+            self.untracked.add(s)
+        else:
+            self.spells.pop(s, None)
         self.obs_frozen.discard(s)
 
     def ev_ServerState(self, s, state, apps):
@@ -586,6 +604,19 @@ class World:
     def ev_Deliver(self):
         self.deferred = False
         self.deliver()
+        self._retrack()
+
+    def _retrack(self):
+        """Everything is delivered: the `servers` events made the master re-read
+        the records of the servers deleted / created meanwhile."""
+        if self.master is None:
+            return
+        for s in sorted(self.untracked):
+            if self.admin.exists(z.path.server(s)) and self.spells.get(s):
+                self.spells[s] = self.spells[s][-1:]
+            else:
+                self.spells.pop(s, None)
+        self.untracked = set()
 
     def deliver(self, only=None):
         if self.master is None or getattr(self, 'deferred', False):
@@ -622,6 +653,7 @@ class World:
         if ev in ('Cycle', 'CrashCycle', 'Integrity') and getattr(self, 'deferred', False):
             self.deferred = False
             self.deliver()      # the loop drains its queue before it schedules
+            self._retrack()
         getattr(self, 'ev_' + ev)(*args)
         if ev not in ('Cycle', 'Restart', 'CrashCycle', 'CrashRestart', 'Tick', 'Integrity', 'Defer', 'Deliver', 'StaleCycle',
                       'StaleCrashCycle', 'Kill', 'DeliverPath'):
@@ -797,7 +829,7 @@ def replay(scn, history):
             post = project_sched(w) if 'exc' not in line else None
             if post is not None:
                 line['post'] = post
-                line['spells'] = {k: v for k, v in w.spells.items()}
+                line['spells'] = {k: v for k, v in w.spells.items() if k not in w.untracked}
                 line['obs_down'] = {k: v for k, v in w.obs_down.items() if w.master is not None}
                 line['obs_frozen'] = sorted(w.obs_frozen)
                 if ev == 'Cycle' and w.placement is not None:
